@@ -79,7 +79,7 @@ func installSandbox(e *twig.Engine) {
 	for _, f := range []string{"spy", "tick", "max", "min", "range", "length"} {
 		p.AllowedFunctions[f] = true
 	}
-	for _, f := range []string{"spyf", "json_encode", "keys", "merge", "replace", "striptags", "url_encode", "round", "number_format"} {
+	for _, f := range []string{"spyf", "json_encode", "keys", "merge", "replace", "url_encode", "round", "number_format"} {
 		p.AllowedFilters[f] = true
 	}
 	e.EnableSandbox(p)
